@@ -9,6 +9,7 @@ CONSTANTS
   PoolN = 4
   Depth3 = FALSE
   M_ShiftOnce = FALSE
+  M_LenOfValue = TRUE
   M_ContainsAnyRunes = TRUE
   UChars = {1, 40, 41}
   UMaxData = 1
